@@ -52,8 +52,8 @@ MUST_REACH = [
     "cirq/circuits/qasm_output.py:QasmOutput.save",
     "cirq/value/condition.py:KeyCondition._qasm_",
     "cirq/value/condition.py:SympyCondition.qasm",
-    "cirq/circuits/circuit.py:Circuit.to_qasm", "cirq/circuits/circuit.py:Circuit._qasm_",
-    "cirq/circuits/circuit.py:Circuit.save_qasm", "cirq/circuits/qasm_output.py:QasmOutput.__str__",
+    "cirq/circuits/circuit.py:AbstractCircuit.to_qasm", "cirq/circuits/circuit.py:AbstractCircuit._qasm_",
+    "cirq/circuits/circuit.py:AbstractCircuit.save_qasm", "cirq/circuits/qasm_output.py:QasmOutput.__str__",
     "cirq/linalg/decompositions.py:kak_decomposition",
     "cirq/linalg/decompositions.py:deconstruct_single_qubit_matrix_into_angles",
     "cirq/ops/measurement_gate.py:MeasurementGate._qasm_",
